@@ -71,6 +71,23 @@ fn entries(pos_doc: &Option<MObj>, neg_doc: &Option<MObj>, side: &str) -> Vec<Ex
         out.push(Ex { y: Y::Mapping(mdoc::to_yaml_map(d)), marker: None, doc: Some(d.clone()), label: "non-matching-unmarked" });
     }
     out.push(Ex { y: Y::String("same-in-both-lists".into()), marker: None, doc: None, label: "string-unmarked" });
+    // a YAML tag on a mapping does not change what the mapping contains (as_mapping looks through it)
+    for (d, label) in [(pos_doc, "tagged-matching"), (neg_doc, "tagged-non-matching")] {
+        if let Some(d) = d {
+            let marker = format!("mark{}tag{}", side, label.len());
+            let mut d = d.clone();
+            d.set("zz", s(&marker));
+            out.push(Ex {
+                y: Y::Tagged(Box::new(serde_yaml::value::TaggedValue {
+                    tag: serde_yaml::value::Tag::new("event"),
+                    value: Y::Mapping(mdoc::to_yaml_map(&d)),
+                })),
+                marker: Some(marker),
+                doc: Some(d),
+                label,
+            });
+        }
+    }
     out
 }
 
